@@ -431,8 +431,13 @@ func (seq Sequence) Truncate(width int, resolution time.Duration, asOf time.Time
 			if bytesToRemove+Width64bits >= len(seq) {
 				return nil
 			}
-			result = result[bytesToRemove:]
-			result.SetUntil(until)
+			// Copy instead of re-heading in place: the operand may be shared
+			// (memstore data, rows handed to several queries) and must not
+			// be written to.
+			truncated := make(Sequence, len(result)-bytesToRemove)
+			copy(truncated[Width64bits:], result[Width64bits+bytesToRemove:])
+			truncated.SetUntil(until)
+			result = truncated
 		}
 	}
 
